@@ -74,7 +74,9 @@ CLAIMED["C12"] = dict(
          "steps = #adopted trials; announced steps form a chain from the transformed start and the iterate moves only to "
          "the `next` of a step announced accepted; final iterate = end of the chain; path = start + adopted points in "
          "order; model times = partial sums of the dt handed to the adopted trials; accumulated step norms >= direct "
-         "distance for any distance obeying the triangle inequality (dist_factor >= 1 in exact arithmetic).",
+         "distance for any distance obeying the triangle inequality (dist_factor >= 1 in exact arithmetic). The callback "
+         "registry as a state machine: for every register / unregister / dispatch sequence a dispatch calls exactly the live "
+         "handles, each once, in order; a handle stays live until unregistered itself.",
     note=LOOP_NOTE + "dist_factor: the float quotient is clamped by the fix: commit; the theorem is over Q for abstract norms.",
     technique=LOOP_TECH, ref="4/C12")
 CLAIMED["C15"] = dict(
